@@ -884,6 +884,39 @@ pub mod persist {
             version_map
         }
 
+        /// Verification hook: like `save_to_bytes`, but serialises at the given
+        /// (older) snapshot format version.
+        #[cfg(fuse_backend_rs_verif)]
+        pub fn verif_save_to_bytes_version(&self, version: u16) -> VfsResult<Vec<u8>> {
+            let root_state = self
+                .root
+                .save_to_bytes()
+                .map_err(|e| VfsError::Persist(format!("Failed to save Vfs root: {:?}", e)))?;
+            let mappings = self.mount_id_mappings.load();
+            let mount_id_mappings: Vec<Option<IdMappingState>> = mappings
+                .iter()
+                .map(|m| {
+                    m.map(|(i, e, r)| IdMappingState {
+                        internal_id: i,
+                        external_id: e,
+                        range: r,
+                    })
+                })
+                .collect();
+            let vfs_state = VfsState {
+                options: self.opts.load().deref().deref().save(),
+                root: root_state,
+                next_super: self.next_super.load(Ordering::SeqCst),
+                mount_id_mappings,
+            };
+            let mut s = Snapshot::new(Vfs::get_version_map(), version);
+            let mut buf = Vec::new();
+            s.save(&mut buf, &vfs_state).map_err(|e| {
+                VfsError::Persist(format!("Failed to save Vfs using snapshot: {:?}", e))
+            })?;
+            Ok(buf)
+        }
+
         /// Saves part of the Vfs metadata into a byte array.
         /// The upper layer caller can use this method to save
         /// and transfer metadata for the reloading in the future.
